@@ -430,6 +430,7 @@ struct Worker {
     sender: Sender<Option<String>>,
     receiver: Receiver<Option<String>>,
     stopped: AtomicBool,
+    stop_requested: AtomicBool,
     stats: WorkerStats,
 }
 
@@ -444,6 +445,7 @@ impl Worker {
             sender: tx,
             receiver: rx,
             stopped: AtomicBool::new(false),
+            stop_requested: AtomicBool::new(false),
             stats: WorkerStats::new(),
         }
     }
@@ -466,12 +468,19 @@ impl Worker {
     }
 
     fn run(&self) {
-        for opt in self.receiver.iter() {
-            if let Some(v) = opt {
-                self.stats.incr_drained();
-                (self.task)(v);
-            } else {
+        loop {
+            // A stop requested while the queue was full could not be queued as
+            // a poison pill: it takes effect once everything queued is processed.
+            if self.stop_requested.load(Ordering::SeqCst) && self.receiver.is_empty() {
                 break;
+            }
+
+            match self.receiver.recv() {
+                Ok(Some(v)) => {
+                    self.stats.incr_drained();
+                    (self.task)(v);
+                }
+                _ => break,
             }
         }
 
@@ -483,7 +492,12 @@ impl Worker {
 
     fn stop(&self) {
         // Send a `None` poison pill value to stop the run loop.
-        let _ = self.sender.try_send(None);
+        if self.sender.try_send(None).is_err() {
+            // The queue is full: make the request stick, then try again in
+            // case the queue was drained in the meantime.
+            self.stop_requested.store(true, Ordering::SeqCst);
+            let _ = self.sender.try_send(None);
+        }
     }
 
     // Stop reading events from the channel and wait for the "stopped" flag
